@@ -407,6 +407,10 @@ def gen_zone_history(rnd, sid, focus="C06"):
     L = rnd.choice([12, 16, 20, 30])
     N = rnd.choice([2, 2, 3, 3, 4, 0]) if focus != "C09" else rnd.choice([0, 2, 3, -1])
     opts = rnd.choice([0, 0, 4, 2, 6]) if focus != "C09" else rnd.choice([2, 6])
+    if focus == "C05":          # nothing is ever deleted: whatever disappears is a lost record; compression more often than not
+        N, opts = rnd.choice([0, -1]), rnd.choice([4, 6, 6, 2, 0])
+    if focus == "C07":          # daily and size rotation together: records dated before the file's day
+        N, opts = rnd.choice([0, 2, 3]), rnd.choice([2, 2, 6, 3])
     s = Scenario(sid, fname, "rot", L, N, opts, now=(2, rnd.choice([0, 7])))
     g = HistoryGen(rnd, s)
     g.op_ctor()
@@ -418,7 +422,7 @@ def gen_zone_history(rnd, sid, focus="C06"):
     g.op_zone(-1)
     # without a retention limit the calendar may also return to the day it left (A, B, A, B): the next index for a day
     # is one more than the highest index that day already has
-    legs = 1 if N > 0 else rnd.choice([1, 2, 3])
+    legs = 1 if N > 0 else (rnd.choice([2, 3]) if focus == "C05" else rnd.choice([1, 2, 3]))
     for leg in range(legs):
         if leg:
             g.op_zone(0 if g.tz else -1)
